@@ -116,6 +116,11 @@ def _gen_machine(rng, X, c):
     w = gen_simplex(rng, c)
     if rng.random() < 0.2:  # positive weights that do not sum to one are accepted by the machine
         w = sig6(w * rng.uniform(0.3, 3.0))
+    if c >= 2 and rng.random() < 0.1:
+        # extremely unbalanced mixtures: a component that training has (all but) switched off
+        w = np.array(w)
+        for j in rng.sample(range(c), rng.randint(1, c - 1)):
+            w[j] = rng.choice([1e-6, 1e-12, 1e-19, 1e-40, 1e-300, 0.0])
     out = {"c": c, "means": L(sig6(means)), "variances": L(sig6(variances)),
            "weights": L(w), "floor": floor,
            "um": rng.random() < 0.7, "uv": rng.random() < 0.4, "uw": rng.random() < 0.4}
@@ -440,6 +445,8 @@ def run_case(case, replay=None):
     for sp in case.get("special", []):
         rec.probe("special_" + sp)
     rec.probe("statistics_from_a_map_machine", bool(case["gmm"].get("mkind")))
+    rec.probe("component_weight_below_machine_epsilon",
+              bool((np.asarray(case["gmm"]["weights"]) < 2e-16).any()))
 
     # per-block invariants on concrete partials
     def inv(st, want_rows, where):
